@@ -508,6 +508,108 @@ pub mod std {
     pub use ::std::path;
     pub use ::std::ffi;
 
+    pub mod time {
+        use super::super::*;
+        use vstd::std_specs::cmp::*;
+        use core::cmp::Ordering;
+
+        /// Stand-in for std::time::Duration (only whole seconds are ever constructed by the crate).
+        #[derive(Clone, Copy)]
+        pub struct Duration {
+            pub secs: u64,
+        }
+
+        impl Duration {
+            pub open spec fn ns(self) -> int {
+                self.secs as int * ns_per_sec()
+            }
+
+            pub const fn from_secs(secs: u64) -> (r: Duration)
+                ensures
+                    r.secs == secs,
+            {
+                Duration { secs }
+            }
+        }
+
+        /// Stand-in for std::time::SystemTime: nanoseconds since the epoch, ordered numerically.
+        #[derive(Clone, Copy)]
+        pub struct SystemTime {
+            pub t: i128,
+        }
+
+        impl SystemTime {
+            pub open spec fn ns(self) -> int {
+                self.t as int
+            }
+
+            /// The same clock as FileTime::now().
+            #[verifier::external_body]
+            pub fn now(Tracked(w): Tracked<&mut World>) -> (r: SystemTime)
+                requires
+                    old(w).inv(),
+                ensures
+                    final(w).inv(),
+                    r.ns() >= old(w).now,
+                    *final(w) == (World { now: r.ns(), ..*old(w) }),
+            {
+                unimplemented!()
+            }
+
+            #[verifier::external_body]
+            pub fn checked_sub(&self, d: Duration) -> (r: Option<SystemTime>)
+                ensures
+                    r.is_some() ==> r.unwrap().ns() == self.ns() - d.ns(),
+            {
+                unimplemented!()
+            }
+        }
+
+        impl PartialEqSpecImpl for SystemTime {
+            open spec fn obeys_eq_spec() -> bool {
+                true
+            }
+
+            open spec fn eq_spec(&self, other: &SystemTime) -> bool {
+                self.t == other.t
+            }
+        }
+
+        impl PartialEq for SystemTime {
+            fn eq(&self, other: &SystemTime) -> (r: bool) {
+                self.t == other.t
+            }
+        }
+
+        impl PartialOrdSpecImpl for SystemTime {
+            open spec fn obeys_partial_cmp_spec() -> bool {
+                true
+            }
+
+            open spec fn partial_cmp_spec(&self, other: &SystemTime) -> Option<Ordering> {
+                if self.t < other.t {
+                    Some(Ordering::Less)
+                } else if self.t == other.t {
+                    Some(Ordering::Equal)
+                } else {
+                    Some(Ordering::Greater)
+                }
+            }
+        }
+
+        impl PartialOrd for SystemTime {
+            fn partial_cmp(&self, other: &SystemTime) -> (r: Option<Ordering>) {
+                if self.t < other.t {
+                    Some(Ordering::Less)
+                } else if self.t == other.t {
+                    Some(Ordering::Equal)
+                } else {
+                    Some(Ordering::Greater)
+                }
+            }
+        }
+    }
+
     pub mod io {
         pub use ::std::io::Error;
         pub use ::std::io::ErrorKind;
@@ -544,6 +646,15 @@ pub mod std {
             pub fn is_dir(&self) -> (r: bool)
                 ensures
                     r == self.view().is_dir,
+            {
+                unimplemented!()
+            }
+
+            /// st_mtime as a SystemTime (may fail on platforms without it: a hard fault nobody counts).
+            #[verifier::external_body]
+            pub fn modified(&self) -> (r: std::io::Result<std::time::SystemTime>)
+                ensures
+                    r.is_ok() ==> r.unwrap().ns() == self.view().mtime,
             {
                 unimplemented!()
             }
@@ -967,10 +1078,59 @@ pub mod std {
             x: u8,
         }
 
+        /// `ReadDir::flatten()`: the readable items only.
+        #[verifier::external_body]
+        pub struct FlatReadDir {
+            x: u8,
+        }
+
+        impl FlatReadDir {
+            pub uninterp spec fn rem(&self) -> Seq<Option<Seq<u8>>>;
+
+            pub uninterp spec fn dir(&self) -> PathV;
+
+            /// Next readable item; unreadable ones are skipped (each a hard fault).
+            #[verifier::external_body]
+            pub fn next(&mut self, Tracked(w): Tracked<&mut World>) -> (r: Option<DirEntry>)
+                requires
+                    old(w).inv(),
+                ensures
+                    final(w).kept(*old(w)),
+                    final(w).inv(),
+                    final(w).now == old(w).now,
+                    final(w).opens == old(w).opens,
+                    final(w).published == old(w).published,
+                    final(w).same_fs(*old(w)),
+                    final(self).dir() == old(self).dir(),
+                    final(self).rem().len() <= old(self).rem().len(),
+                    final(w).steps - old(w).steps == old(self).rem().len() - final(self).rem().len() + if r.is_none() { 1int } else { 0int },
+                    final(w).listed - old(w).listed == old(self).rem().len() - final(self).rem().len(),
+                    match r {
+                        None => final(self).rem().len() == 0,
+                        Some(e) => {
+                            &&& final(self).rem().len() < old(self).rem().len()
+                            &&& e.dir() == old(self).dir()
+                            &&& single_component(e.name())
+                        },
+                    },
+            {
+                unimplemented!()
+            }
+        }
+
         impl ReadDir {
             pub uninterp spec fn rem(&self) -> Seq<Option<Seq<u8>>>;
 
             pub uninterp spec fn dir(&self) -> PathV;
+
+            #[verifier::external_body]
+            pub fn flatten(self) -> (r: FlatReadDir)
+                ensures
+                    r.rem() == self.rem(),
+                    r.dir() == self.dir(),
+            {
+                unimplemented!()
+            }
 
             /// readdir(3): one item per call (T3 calls this explicitly; it counts as a filesystem step).
             #[verifier::external_body]
